@@ -23,6 +23,9 @@ CHECKS = {
     "C15": ("obligation<->validator pairing: taint-based enumeration of panic-capable/positional uses of configuration quantities over MIR + control-dependence analysis of BadConfig returns",
             "All-sites structural decision: every unwrap/expect/panic/index/Rem and every bb8/tokio builder contract whose operand is tainted by a configuration field in pool construction, routing, banning, mirrors, sharding and admin code is enumerated from the type-checked MIR (69 sites today) and must be discharged by the validators registered for that quantity; each validator is re-verified on every run as a `return Err(BadConfig)` in Config/Pool/User/Shard::validate whose controlling conditions (control dependence + taint) depend on that quantity; call-site guards and by-construction facts used by the pairing are re-verified too. A new panic-capable use of a config value, or a deleted validator, is a violation.",
             "TOML/serde acceptance, TLS file checks and the validators' arithmetic beyond dependence on the right quantities/constants are not decided; bb8/tokio panics come from their documented contracts. " + TRUST, "DESIGN.md §4 C15"),
+    "C14": ("who-may-write over statics (whole program, resolved through Lazy/ArcSwap receivers) + dominance by validation + loop membership + must-pass-through in Client::handle",
+            "All-sites/all-paths structural decision over lib+bin MIR: CONFIG is stored at one site, in config::parse, reachable only over the Ok edge of Config::validate, and what is stored is the validated value; POOLS is swapped at one site, outside every loop of from_config, before the only Ok return and after every error exit; from_config/parse/reload_config have exactly the expected callers and reload rebuilds pools only on parse()==Ok; an unchanged config_hash carries the live pool over and the iteration ends without building a new bb8 pool; Client::handle re-resolves its pool by (pool_name, username) between reading a message and every checkout, checks out on that pool, refreshes router settings, and a missing pool yields Err.",
+            "Atomicity of arc_swap and the timing of the reload relative to clients are not decided; CONFIG is published before from_config succeeds (valid file, unreachable servers with validate_config) is reported, not armed. " + TRUST, "DESIGN.md §4 C14"),
 }
 
 NOT_APPLICABLE = {}
